@@ -25,6 +25,56 @@ type Prov struct {
 	closures map[*ssa.Function]*ssa.MakeClosure // closure fn -> its (unique) MakeClosure
 	visiting map[ssa.Value]bool
 	depth    int
+	loadCtx  []ssa.Instruction // the load instruction(s) through which the current value is read
+	reachMemo map[[2]*ssa.BasicBlock]bool
+}
+
+// storeReaches: can the store instruction execute before the load (flow-sensitivity for locals)?
+func (pv *Prov) storeReaches(st ssa.Instruction, ld ssa.Instruction) bool {
+	sb, lb := st.Block(), ld.Block()
+	if sb == nil || lb == nil || sb.Parent() != lb.Parent() {
+		return true
+	}
+	if sb == lb {
+		si, li := -1, -1
+		for i, in := range sb.Instrs {
+			if in == st {
+				si = i
+			}
+			if in == ld {
+				li = i
+			}
+		}
+		if si < li {
+			return true
+		}
+		// later in the same block: only through a cycle
+	}
+	if pv.reachMemo == nil {
+		pv.reachMemo = map[[2]*ssa.BasicBlock]bool{}
+	}
+	k := [2]*ssa.BasicBlock{sb, lb}
+	if r, ok := pv.reachMemo[k]; ok {
+		return r
+	}
+	seen := map[*ssa.BasicBlock]bool{}
+	stack := append([]*ssa.BasicBlock{}, sb.Succs...)
+	res := false
+	for len(stack) > 0 {
+		x := stack[len(stack)-1]
+		stack = stack[:len(stack)-1]
+		if x == lb {
+			res = true
+			break
+		}
+		if seen[x] {
+			continue
+		}
+		seen[x] = true
+		stack = append(stack, x.Succs...)
+	}
+	pv.reachMemo[k] = res
+	return res
 }
 
 func NewProv(p *Program) *Prov {
@@ -155,12 +205,18 @@ func (pv *Prov) storesTo(al *ssa.Alloc, field int) (whole []ssa.Value, fieldVals
 			switch r := r.(type) {
 			case *ssa.Store:
 				if r.Addr == addr {
+					if n := len(pv.loadCtx); n > 0 && !pv.storeReaches(r, pv.loadCtx[n-1]) {
+						continue
+					}
 					whole = append(whole, r.Val)
 				}
 			case *ssa.FieldAddr:
 				if r.X == addr && field >= 0 && r.Field == field {
 					for _, rr := range *r.Referrers() {
 						if st, ok := rr.(*ssa.Store); ok && st.Addr == r {
+							if n := len(pv.loadCtx); n > 0 && !pv.storeReaches(st, pv.loadCtx[n-1]) {
+								continue
+							}
 							fieldVals = append(fieldVals, st.Val)
 						}
 					}
@@ -299,6 +355,24 @@ func (pv *Prov) Atom(v ssa.Value, env *Env) string {
 	case *ssa.Alloc:
 		whole, _ := pv.storesTo(x, -1)
 		if len(whole) == 0 {
+			// composite literal built field by field
+			if st, ok := x.Type().Underlying().(*types.Pointer).Elem().Underlying().(*types.Struct); ok {
+				var parts []string
+				for i := 0; i < st.NumFields(); i++ {
+					_, fv := pv.storesTo(x, i)
+					if len(fv) == 0 {
+						continue
+					}
+					var as []string
+					for _, f := range fv {
+						as = append(as, pv.Atom(f, env))
+					}
+					parts = append(parts, st.Field(i).Name()+": "+joinAtoms(as))
+				}
+				if len(parts) > 0 {
+					return "lit{" + strings.Join(parts, ", ") + "}"
+				}
+			}
 			return "zero"
 		}
 		var as []string
@@ -309,6 +383,8 @@ func (pv *Prov) Atom(v ssa.Value, env *Env) string {
 	case *ssa.UnOp:
 		switch x.Op {
 		case token.MUL:
+			pv.loadCtx = append(pv.loadCtx, x)
+			defer func() { pv.loadCtx = pv.loadCtx[:len(pv.loadCtx)-1] }()
 			return pv.Atom(x.X, env)
 		case token.NOT:
 			return "!" + pv.Atom(x.X, env)
@@ -407,6 +483,11 @@ func (pv *Prov) Atom(v ssa.Value, env *Env) string {
 		}
 		return "call " + name + "(" + strings.Join(args, ", ") + ")"
 	case *ssa.BinOp:
+		if x.Op == token.ADD && isInduction(x.X) {
+			if c, ok := x.Y.(*ssa.Const); ok && c.Value != nil && c.Value.ExactString() == "1" {
+				return "idx" // the index of a range loop (the induction variable starts at -1)
+			}
+		}
 		return "(" + pv.Atom(x.X, env) + " " + x.Op.String() + " " + pv.Atom(x.Y, env) + ")"
 	case *ssa.Convert:
 		return pv.Atom(x.X, env)
